@@ -266,7 +266,7 @@ theorem Phi_set_indent {offs : List LineOffset} {m : Nat} {o : LineOffset} (h : 
   simp only at this
   omega
 
-theorem liftL_ok {α : Type} {x : Except Lines.Panic α} {a : α} (h : liftL x = .ok a) : x = .ok a := by
+theorem liftL_eq_ok {α : Type} {x : Except Lines.Panic α} {a : α} (h : liftL x = .ok a) : x = .ok a := by
   cases x with
   | error e => cases e <;> simp [liftL] at h
   | ok v => simp [liftL] at h; rw [h]
@@ -282,7 +282,7 @@ theorem bqRewrite_phi {src : List Char} {o o' : LineOffset} {rest : List Char} {
   have ho' : _ = o' := ‹_›
   subst ho'
   obtain ⟨hle, rfl⟩ := psub_ok hrel
-  obtain ⟨h1, _⟩ := Lines.find_indent_bounds _ _ _ _ (liftL_ok hfi)
+  obtain ⟨h1, _⟩ := Lines.find_indent_bounds _ _ _ _ (liftL_eq_ok hfi)
   refine ⟨rfl, ?_⟩
   simp only
   omega
@@ -298,8 +298,8 @@ theorem itemRewrite_phi {src : List Char} {o o' : LineOffset} {pos indent : Nat}
   subst ho'
   obtain ⟨hle, rfl⟩ := psub_ok hrel
   obtain ⟨hle2, rfl⟩ := psub_ok hlen
-  obtain ⟨h1, h2, _⟩ := Lines.find_indent_bounds _ _ fi.1 fi.2 (liftL_ok hfi)
-  obtain ⟨p, q, _, hp, hb⟩ := Lines.slice_eq_ok_iff.mp (liftL_ok hltxt)
+  obtain ⟨h1, h2, _⟩ := Lines.find_indent_bounds _ _ fi.1 fi.2 (liftL_eq_ok hfi)
+  obtain ⟨p, q, _, hp, hb⟩ := Lines.slice_eq_ok_iff.mp (liftL_eq_ok hltxt)
   refine ⟨rfl, ?_, ?_⟩ <;> (try simp only) <;> omega
 
 theorem Phi_set_lt {offs : List LineOffset} {m : Nat} {o o' : LineOffset} (h : offs[m]? = some o)
@@ -355,7 +355,7 @@ theorem bqScan_phi {test : Test} (ht : TestPure test) :
 
 theorem getLine_nonempty {s : BState} {m : Nat} {c : Char} {rest : List Char} {o : LineOffset}
     (hline : s.getLine m = .ok (c :: rest)) (ho : s.offs[m]? = some o) : o.firstNonspace < o.lineEnd := by
-  have := liftL_ok hline
+  have := liftL_eq_ok hline
   simp only [Lines.getLine, ho] at this
   obtain ⟨p, q, _, hp, hb⟩ := Lines.slice_eq_ok_iff.mp this
   have := Lines.utf8Size_pos' c
